@@ -259,7 +259,21 @@ def validators_unavoidable(P: Program, R: Report, rule: str) -> None:
             body = f.node.body
             sites.append(s)
     if len(sites) < 4:
-        raise AnalysisError(f"validate_in_memory_geff: only {len(sites)} validator calls found")
+        # table-driven form: for check, args, msg in (<static rows>): ok, detail = check(*args); if not ok: raise
+        loops = [lp for lp in f.node.body if isinstance(lp, ast.For) and any(isinstance(x, ast.Raise) for x in ast.walk(lp))
+                 and any(isinstance(x, ast.Call) and isinstance(x.func, ast.Name) and x.func.id in {v.id for v in ast.walk(lp.target) if isinstance(v, ast.Name)} for x in ast.walk(lp))]
+        if not loops:
+            R.undecided(rule, f, f.node, "structural validators run on every path to a normal return", f"only {len(sites)} direct validator calls and no table-driven loop recognised")
+            return
+        entry = next(n.id for n in cfg.nodes.values() if n.kind == "entry")
+        exits = [n.id for n in cfg.nodes.values() if n.kind == "exit"]
+        for lp in loops:
+            ln = cfg.node_of(lp)
+            skips = [x for x in ast.walk(lp) if isinstance(x, (ast.Continue, ast.Break, ast.Return))]
+            avoid = ln is None or any(cfg.reachable(entry, e, avoiding={ln}) for e in exits)
+            R.check(not avoid and not skips, rule, f, lp, "the table of structural validators is run completely on every path to a normal return",
+                    "the validator loop can be bypassed or left early: a malformed source is imported instead of rejected", via="cfg-must-pass")
+        return
     entry = next(n.id for n in cfg.nodes.values() if n.kind == "entry")
     exits = [n.id for n in cfg.nodes.values() if n.kind == "exit"]
     rets = [s for s in ast.walk(f.node) if isinstance(s, ast.Return)]
